@@ -247,6 +247,13 @@ pub fn run(ctx: &Ctx, rep: &mut Report) {
         let text = in_context(&format!("{}{}", p, tail), r.below(5));
         run_case(&text, kw.word, &format!("glued:{}", i), true, rep);
     });
+    // every printable character at each position of each argument mini-language
+    let n_sweep = crate::corpus::CHARSWEEP_TEMPLATES.len() as u64 * 96;
+    par_cases(ctx, "charsweep", n_sweep, rep, |i, rep| {
+        let text = crate::corpus::input(ctx.seed, "charsweep", i);
+        let kw = text.split(' ').next().unwrap_or("").to_string();
+        run_case(&text, &kw, &format!("charsweep:{}", i), true, rep);
+    });
     // keyword alone with its argument(s) missing
     par_cases(ctx, "missing", nkw * 7, rep, |i, rep| {
         let kw = &VOCAB[(i % nkw) as usize];
